@@ -787,6 +787,56 @@ def lock_lifetime_rule(chk, prog, R):
                         t = (x.get('value') or '').upper().replace(' ', '')
                         if 'LOCKING_MODE=EXCLUSIVE' in t or 'BEGINEXCLUSIVE' in t or 'BEGINIMMEDIATE' in t:
                             holders.append((f, n, x.get('value')))
+    # (1b) an unfinalized statement must at least have been stepped to completion: a SELECT that is left on a row keeps a SHARED lock on
+    # the file (and sqlite3_close() refuses to close), so every later write to that path in the same process fails and the file keeps the old model
+    for lf, lv, ln in leaky:
+        steps = [n for n in walk(lf.body) if n.get('kind') == 'CallExpr' and callee_name(n) == 'sqlite3_step' and any(
+            strip(a).get('kind') == 'DeclRefExpr' and strip(a)['referencedDecl'].get('name') == lv for a in call_args(n))]
+        if not steps:
+            continue
+        drained = False
+        for n in walk(lf.body):
+            if n.get('kind') == 'ForStmt':
+                # for (rc = sqlite3_step(s); rc == SQLITE_ROW; rc = sqlite3_step(s)): the same draining loop written as a for
+                init_, cond_, inc_, body_ = flow.for_parts(n)
+                if init_ is not None and cond_ is not None and inc_ is not None:
+                    ct = lf.unit.text(cond_).replace(' ', '')
+                    var_ = ct.split('==SQLITE_ROW')[0] if ct.endswith('==SQLITE_ROW') and '&&' not in ct and '||' not in ct else None
+                    def steps_into(x):
+                        x0 = strip(x)
+                        return x0.get('kind') == 'BinaryOperator' and x0.get('opcode') == '=' and lf.unit.text(kids(x0)[0]).replace(' ', '') == var_ and \
+                            any(any(m is st_ for m in walk(kids(x0)[1])) for st_ in steps)
+                    if var_ and steps_into(init_) and steps_into(inc_) and not any(m.get('kind') in ('BreakStmt', 'ContinueStmt') for m in walk(body_)):
+                        drained = True
+            if n.get('kind') in ('WhileStmt', 'DoStmt'):
+                cond = kids(n)[0] if n.get('kind') == 'WhileStmt' else kids(n)[-1]
+                ct = lf.unit.text(cond).replace(' ', '')
+                if any(any(m is st_ for m in walk(cond)) for st_ in steps) and '==SQLITE_ROW' in ct and '&&' not in ct and '||' not in ct:
+                    # while ((rc = sqlite3_step(stmt)) == SQLITE_ROW): left only when the statement has run to its end (or failed); no break inside
+                    if not any(m.get('kind') == 'BreakStmt' for m in walk(kids(n)[-1] if n.get('kind') == 'WhileStmt' else kids(n)[0])):
+                        drained = True
+        has_fin = any(n.get('kind') == 'CallExpr' and callee_name(n) == 'sqlite3_finalize' and any(
+            strip(a).get('kind') == 'DeclRefExpr' and strip(a)['referencedDecl'].get('name') == lv for a in call_args(n)) for n in walk(lf.body))
+        in_cond = any(n.get('kind') == 'IfStmt' and any(m is ln for m in walk(kids(n)[0])) for n in walk(lf.body))
+        if not drained and has_fin and in_cond:
+            # finalized on some paths (typically inside `if (prepare == SQLITE_OK)`, where the other path has no statement): not decided here
+            chk.instance(R, '%s %s: statement `%s` is finalized on some paths only; whether the remaining paths hold a live statement is not decided' %
+                         (lf.unit.where(ln), lf.name, lv), 'undecided')
+            continue
+        counted = any(n.get('kind') == 'ForStmt' and flow.induction(n) is not None and any(any(m is st_ for m in walk(n)) for st_ in steps)
+                      for n in walk(lf.body))
+        if not drained and not counted:
+            chk.instance(R, '%s %s: statement `%s` is not finalized and the loop that steps it has a shape that is not recognised: not decided' %
+                         (lf.unit.where(ln), lf.name, lv), 'undecided')
+            continue
+        if drained:
+            chk.instance(R, '%s %s: statement `%s` is not finalized but is stepped until it returns something other than SQLITE_ROW' % (lf.unit.where(ln), lf.name, lv))
+        else:
+            chk.instance(R, '%s %s: statement `%s` is neither finalized nor stepped to completion' % (lf.unit.where(ln), lf.name, lv), 'refuted')
+            chk.violation(Finding('IO.lock-lifetime', rel(lf.file), lf.name, 'undrained:' + lv, lf.unit.where(ln),
+                                  '%s can return with statement `%s` neither finalized nor stepped until sqlite3_step() stops returning SQLITE_ROW: a SELECT left on a '
+                                  'row keeps a SHARED lock on the file and keeps the connection open (sqlite3_close() returns BUSY), so after a read every later '
+                                  'write to that path in the same process fails with "database is locked" and the file keeps the previously written model' % (lf.name, lv)))
     chk.extra['sqlite_unfinalized_statements'] = ['%s %s (%s)' % (f.unit.where(n), f.name, v) for f, v, n in leaky]
     if not holders:
         chk.instance(R, 'no connection-lifetime lock is requested (%d statement(s) may stay unfinalized at close: harmless without one)' % len(leaky))
